@@ -61,7 +61,21 @@ class WorkerRun:
         self.running = 0
         self.max_running = 0
         self.store_calls = 0
-        self.broker = InMemoryMessageBroker()
+        self.broker_kind = sc.get("broker", "memory")
+        if self.broker_kind == "redis":
+            import fake_redis
+            fake_redis.install()
+            fake_redis.reset_servers()
+            from repid.connections.redis.message_broker import RedisMessageBroker
+            self.broker = RedisMessageBroker("redis://workrun")
+        elif self.broker_kind == "rabbit":
+            import fake_amqp
+            fake_amqp.install()
+            fake_amqp.reset_servers()
+            from repid.connections.rabbitmq.message_broker import RabbitMessageBroker
+            self.broker = RabbitMessageBroker("amqp://workrun")
+        else:
+            self.broker = InMemoryMessageBroker()
         self.results = InMemoryBucketBroker(use_result_bucket=True) if sc.get("results_broker", True) else None
         self.args = InMemoryBucketBroker() if sc.get("args_broker", False) else None
         self.conn = Connection(self.broker, self.args, self.results)
@@ -227,6 +241,8 @@ class WorkerRun:
 
     # ------------------------------------------------------------------ running
     async def enqueue_all(self) -> None:
+        if self.broker_kind != "memory":
+            await self.broker.connect()
         for q in set(self.sc.get("actors", {"act": "default"}).values()):
             await self.broker.queue_declare(q)
         for j in self.sc["jobs"]:
@@ -319,6 +335,51 @@ class WorkerRun:
 
     def msg_params(self, q: str = "default") -> dict:
         """id -> (place, tried, next, ts) for every message present in the queue."""
+        if self.broker_kind == "redis":
+            import fake_redis
+            from repid.data._parameters import Parameters
+            snap = fake_redis.server_for("redis://workrun").snapshot()
+            out: dict = {}
+
+            def add(short, place):
+                mid = short.split(":")[1]
+                hs = [h for name, h in snap["hashes"].items() if name.startswith(f"m:{q}:") and name.endswith(":" + short)]
+                p = Parameters.decode(hs[0]["parameters"]) if hs and "parameters" in hs[0] else None
+                out.setdefault(mid, []).append({"place": place, "tried": None if p is None else p.retries.already_tried,
+                                                "next": None if p is None else to_us(p.delay.next_execution_time),
+                                                "ts": None if p is None else to_us(p.timestamp)})
+            for name, vals in snap["lists"].items():
+                if name.startswith(f"q:{q}:"):
+                    for v in vals:
+                        add(v, "dead" if name.endswith(":dead") else "simple")
+            for name, items in snap["zsets"].items():
+                if name.startswith(f"q:{q}:"):
+                    for m, _s in items:
+                        add(m, "delayed")
+                elif name == "processing":
+                    for m, _s in items:
+                        add(m, "processing")
+            return out
+        if self.broker_kind == "rabbit":
+            import json as _json
+
+            import fake_amqp
+            from repid.data._parameters import Parameters
+            srv = fake_amqp.server_for("amqp://workrun")
+            out = {}
+
+            def addm(m, place):
+                p = Parameters.decode(_json.loads(m.body)["parameters"])
+                out.setdefault(m.properties.message_id, []).append(
+                    {"place": place, "tried": p.retries.already_tried, "next": to_us(p.delay.next_execution_time), "ts": to_us(p.timestamp)})
+            for name, place in ((q, "simple"), (q + ":delayed", "delayed"), (q + ":dead", "dead")):
+                if name in srv.queues:
+                    for m in srv.queues[name].ready:
+                        addm(m, place)
+            for (_cid, _tag), (qn, m) in srv.unacked.items():
+                if qn.split(":")[0] == q:
+                    addm(m, "processing")
+            return out
         dq = self.broker.queues[q]
         out = {}
         for place, msgs in (("simple", list(dq.simple._queue)), ("dead", dq.dead), ("processing", list(dq.processing)),
